@@ -1,4 +1,5 @@
 import SieveModel.Lemmas.ReplyDecode
+import SieveModel.Lemmas.ReplyLine
 /-!
 # C09 — Operation results mirror the server's status reply
 
@@ -7,6 +8,11 @@ of a `NO` line that follows the status atom.  Proved for every response-code ato
 (any bytes: quotes, backslashes, non-ASCII …) and every reader state: each reply shape of
 RFC 5804 is decoded to exactly the code and the human-readable text the reply carries — no
 shape raises, none keeps protocol bytes (quotes, escapes, CRLF) in the text.
+
+Reader level (`*_reply_is_read`): when the pending bytes — wherever the buffer/stream boundary lies and
+however `recv` delivers them — begin with a status line, `__read_response` returns that status, sets
+`errcode` / `errmsg` from that line alone and leaves exactly the bytes after its CRLF pending, so the
+next reply is read from its first byte.
 -/
 namespace C09
 open Reader Client ReplyDecode
@@ -46,6 +52,109 @@ theorem unescape_escape (v : Bytes) : unescape (escapeQ v) = v := unescape_escap
 /-- the boolean every operation returns is "the final status is OK" -/
 theorem operation_result_is_status_ok (x : Res Reply) (rep : Reply) (c : Client) (h : x = (.ok rep, c)) :
     okOf x = (.ok (rep.code == some .OK), c) := by subst h; rfl
+
+open ReplyLine in
+/-- `OK` CRLF -/
+theorem ok_reply_is_read (nbl : Option Nat) (st : RState) (rest : Bytes) (hp : pending st = sb "OK" ++ 13 :: 10 :: rest) :
+    ∃ st', readResponse nbl st = .ok (⟨some .OK, none, []⟩, st') ∧ pending st' = rest ∧
+      st'.errcode = st.errcode ∧ st'.errmsg = st.errmsg := by
+  obtain ⟨st1, h1, h2, h3, h4⟩ := readLine_ok st (sb "OK") rest none hp (by decide) (by decide) (by decide) (by decide) rfl
+  exact ⟨st1, readResponse_status nbl st st1 .OK none h1, h2, h3, h4⟩
+
+open ReplyLine in
+/-- `NO` CRLF: the previous error code and text are cleared -/
+theorem bare_no_reply_is_read (nbl : Option Nat) (st : RState) (rest : Bytes) (hp : pending st = sb "NO" ++ 13 :: 10 :: rest) :
+    ∃ st', readResponse nbl st = .ok (⟨some .NO, none, []⟩, st') ∧ pending st' = rest ∧
+      st'.errcode = [] ∧ st'.errmsg = [] := by
+  obtain ⟨st1, h2, _, _, hok, _⟩ := readLine_no st (sb "NO") rest none hp (by decide) (by decide) (by decide) (by decide)
+  exact ⟨{ st1 with errcode := [], errmsg := [] }, readResponse_status nbl st _ .NO none (hok _ rfl), h2, rfl, rfl⟩
+
+open ReplyLine in
+/-- `BYE …` CRLF: the read fails with `Error` -/
+theorem bye_reply_fails (nbl : Option Nat) (st : RState) (rest : Bytes) (hp : pending st = sb "BYE" ++ 13 :: 10 :: rest) :
+    readResponse nbl st = .error .error :=
+  readResponse_error nbl st _ (readLine_bye st (sb "BYE") rest none hp (by decide) (by decide) (by decide) (by decide))
+
+open ReplyLine in
+/-- `NO <tail>` CRLF for any tail without LF that `__parse_error` decodes without reading further -/
+theorem no_reply_is_read (nbl : Option Nat) (st : RState) (c : UInt8) (t rest code msg : Bytes)
+    (hp : pending st = 78 :: 79 :: 32 :: (c :: t) ++ 13 :: 10 :: rest) (hws : B.isWs c = false) (hlf : NoLF (c :: t))
+    (hdec : ∀ st1 : RState, parseError (some (c :: t)) st1 = .ok { st1 with errcode := code, errmsg := msg }) :
+    ∃ st', readResponse nbl st = .ok (⟨some .NO, some (c :: t), []⟩, st') ∧ pending st' = rest ∧
+      st'.errcode = code ∧ st'.errmsg = msg := by
+  have hl : splitCRLF (78 :: 79 :: 32 :: c :: t) = none := by
+    apply splitCRLF_none_of_noLF
+    intro x hx
+    simp only [List.mem_cons] at hx
+    rcases hx with rfl | rfl | rfl | hx
+    · decide
+    · decide
+    · decide
+    · exact hlf x (by simpa using hx)
+  obtain ⟨st1, h2, _, _, hok, _⟩ := readLine_no st (78 :: 79 :: 32 :: c :: t) rest (some (c :: t)) hp hl (by simp) rfl
+    (respMatch_no (c :: t) c t rfl hws hlf)
+  exact ⟨_, readResponse_status nbl st _ .NO _ (hok _ (hdec st1)), h2, rfl, rfl⟩
+
+theorem escapeQ_noLF (v : Bytes) (h : ReplyLine.NoLF v) : ReplyLine.NoLF (escapeQ v) := by
+  induction v with
+  | nil => intro c hc; simp [escapeQ] at hc
+  | cons x r ih =>
+    have hr : ReplyLine.NoLF r := fun y hy => h y (by simp [hy])
+    have hx : x ≠ 10 := h x (by simp)
+    intro c hc
+    unfold escapeQ at hc
+    split at hc
+    · simp only [List.mem_cons] at hc
+      rcases hc with rfl | rfl | hc
+      · decide
+      · decide
+      · exact ih hr c hc
+    · split at hc
+      · simp only [List.mem_cons] at hc
+        rcases hc with rfl | rfl | hc
+        · decide
+        · decide
+        · exact ih hr c hc
+      · simp only [List.mem_cons] at hc
+        rcases hc with rfl | hc
+        · exact hx
+        · exact ih hr c hc
+
+/-- `NO (CODE) "text"` CRLF, read from the pending bytes: code and text of this reply, nothing else consumed -/
+theorem no_code_text_reply_is_read (nbl : Option Nat) (st : RState) (code text rest : Bytes) (hne : code ≠ [])
+    (hc : ∀ c ∈ code, isAtomByte c = true) (htext : ReplyLine.NoLF text)
+    (hp : pending st = 78 :: 79 :: 32 :: (40 :: (code ++ 41 :: 32 :: (34 :: (escapeQ text ++ [34])))) ++ 13 :: 10 :: rest) :
+    ∃ st', readResponse nbl st = .ok (⟨some .NO, some (40 :: (code ++ 41 :: 32 :: (34 :: (escapeQ text ++ [34])))), []⟩, st') ∧
+      pending st' = rest ∧ st'.errcode = code ∧ st'.errmsg = text := by
+  apply no_reply_is_read nbl st 40 _ rest code text hp (by decide)
+  · intro x hx
+    simp only [List.mem_cons, List.mem_append, List.not_mem_nil, or_false] at hx
+    rcases hx with rfl | hx | rfl | rfl | rfl | hx | rfl
+    · decide
+    · have := hc x hx
+      intro h10; subst h10; simp [isAtomByte, B.isWs] at this
+    · decide
+    · decide
+    · decide
+    · exact escapeQ_noLF text htext x hx
+    · decide
+  · intro st1
+    exact parseError_code_and_quoted_text code text st1 hne hc
+
+/-- `NO "text"` CRLF -/
+theorem no_text_reply_is_read (nbl : Option Nat) (st : RState) (text rest : Bytes) (htext : ReplyLine.NoLF text)
+    (hp : pending st = 78 :: 79 :: 32 :: (34 :: (escapeQ text ++ [34])) ++ 13 :: 10 :: rest) :
+    ∃ st', readResponse nbl st = .ok (⟨some .NO, some (34 :: (escapeQ text ++ [34])), []⟩, st') ∧
+      pending st' = rest ∧ st'.errcode = [] ∧ st'.errmsg = text := by
+  apply no_reply_is_read nbl st 34 _ rest [] text hp (by decide)
+  · intro x hx
+    simp only [List.mem_cons, List.mem_append, List.not_mem_nil, or_false] at hx
+    rcases hx with rfl | hx | rfl
+    · decide
+    · exact escapeQ_noLF text htext x hx
+    · decide
+  · intro st1
+    exact parseError_quoted_text_only text st1
 
 /-- non-vacuity -/
 example : (parseError (some (sb "(QUOTA/MAXSIZE) \"Quota \\\"x\\\" exceeded\"")) default).toOption.map
